@@ -88,6 +88,9 @@ pub struct Tuple {
     /// Some(stage): the plan of that stage holds a *hard* I/O error (disk full, EIO on read, ...). Then the stage may fail, and
     /// the only demand is the narrow one: a stage that reports success has handed over exactly the right program (judge_hard).
     pub hard_stage: Option<usize>,
+    /// every stage is invoked through the repository's `fml` wrapper script (`fml parse …`, `fml compile …`, `fml execute …` with
+    /// PARSER/COMPILER/INTERPRETER pointing at the binary) instead of the binary itself
+    pub wrapper_stages: bool,
 }
 
 pub const INPUT_NAMES: &[&str] = &["prog.fml", "prog.fml", "job.1.fml", "my prog.fml", "prog.v2.final.fml", "прог.fml", "noext", "a.b", "UPPER.FML", "x.json.fml", "trailing.dot..fml"];
@@ -96,7 +99,7 @@ impl Tuple {
     pub fn to_json(&self) -> Value {
         json!({"format": self.format.ext(), "parse_flag": self.parse_flag, "parse_stdin": self.parse_stdin, "parse_out": self.parse_out.name(),
                "compile_flag": self.compile_flag, "compile_stdin": self.compile_stdin, "compile_out": self.compile_out.name(), "exec_stdin": self.exec_stdin,
-               "profile": self.profile.name(), "plans": self.plans, "wrapper": self.wrapper, "input_name": self.input_name, "stale": self.stale, "hash_seed": self.hash_seed, "hard_stage": self.hard_stage})
+               "profile": self.profile.name(), "plans": self.plans, "wrapper": self.wrapper, "input_name": self.input_name, "stale": self.stale, "hash_seed": self.hash_seed, "hard_stage": self.hard_stage, "wrapper_stages": self.wrapper_stages})
     }
     pub fn from_json(v: &Value) -> Option<Tuple> {
         let plans = v.get("plans")?.as_array()?;
@@ -116,6 +119,7 @@ impl Tuple {
             stale: v.get("stale").and_then(|x| x.as_bool()).unwrap_or(false),
             hash_seed: v.get("hash_seed")?.as_u64()?,
             hard_stage: v.get("hard_stage").and_then(|x| x.as_u64()).map(|x| x as usize),
+            wrapper_stages: v.get("wrapper_stages").and_then(|x| x.as_bool()).unwrap_or(false),
         })
     }
 
@@ -154,13 +158,14 @@ impl Tuple {
             stale: rng.below(4) == 0,
             hash_seed: rng.next_u64(),
             hard_stage: None,
+            wrapper_stages: false,
         }
     }
 
     pub fn plain(format: Fmt, profile: Profile) -> Tuple {
         Tuple { format, parse_flag: Some(format.ext().to_string()), parse_stdin: false, parse_out: Chan::OFile, compile_flag: None, compile_stdin: false,
                 compile_out: Chan::OFile, exec_stdin: false, profile, plans: [String::new(), String::new(), String::new()], wrapper: false,
-                input_name: "prog.fml".into(), stale: false, hash_seed: 11, hard_stage: None }
+                input_name: "prog.fml".into(), stale: false, hash_seed: 11, hard_stage: None, wrapper_stages: false }
     }
 }
 
@@ -273,6 +278,19 @@ fn count_faults(trace: &str) -> u64 {
     trace.lines().filter(|l| (l.starts_with("W ") || l.starts_with("R ")) && (l.ends_with("short") || l.ends_with("cut") || l.ends_with("-> E4"))).count() as u64
 }
 
+/// A stage's child: the binary itself, or the wrapper script under bash forwarding to it.
+fn stage_child(t: &Tuple, argv: &[&str]) -> Child {
+    if !t.wrapper_stages { return Child::new(t.profile, argv); }
+    let script = work::repo_root().join("fml");
+    let mut full: Vec<&str> = vec![script.to_str().unwrap()];
+    full.extend_from_slice(argv);
+    let mut c = Child::new(t.profile, &full);
+    c.program = Some("/bin/bash".into());
+    let b = super::proc::binary(t.profile).to_str().unwrap().to_string();
+    c.env = vec![("PARSER".into(), b.clone()), ("COMPILER".into(), b.clone()), ("INTERPRETER".into(), b), ("PATH".into(), "/usr/bin:/bin".into())];
+    c
+}
+
 pub fn run_staged(source: &str, t: &Tuple) -> Staged {
     let dir = scratch_dir();
     let input_name: &str = if t.wrapper { "prog.fml" } else { t.input_name.as_str() };
@@ -327,7 +345,7 @@ pub fn run_staged(source: &str, t: &Tuple) -> Staged {
         Chan::StdoutPipe => None,
     };
     let argv: Vec<&str> = args.iter().map(|s| s.as_str()).collect();
-    let mut c = Child::new(t.profile, &argv);
+    let mut c = stage_child(t, &argv);
     if t.parse_stdin { c.stdin = In::File(input_name.to_string()); }
     match t.parse_out {
         Chan::StdoutFile => c.stdout = Out::File(format!("redirected.{}", ext)),
@@ -402,7 +420,7 @@ pub fn run_staged(source: &str, t: &Tuple) -> Staged {
         Chan::StdoutPipe => None,
     };
     let argv: Vec<&str> = args.iter().map(|s| s.as_str()).collect();
-    let mut c = Child::new(t.profile, &argv);
+    let mut c = stage_child(t, &argv);
     if t.compile_stdin { c.stdin = In::File(ast_file.clone()); }
     if t.compile_out == Chan::StdoutFile { c.stdout = Out::File("redirected.bc".into()); }
     c.shim = stage_shim(t, 1, source.len());
@@ -447,7 +465,7 @@ pub fn run_staged(source: &str, t: &Tuple) -> Staged {
         Some(p) => p.clone(),
         None => { std::fs::write(dir.join("piped.bc"), &bc_bytes).unwrap(); "piped.bc".to_string() }
     };
-    let mut c = if t.exec_stdin { Child::new(t.profile, &["execute"]) } else { Child::new(t.profile, &["execute", bc_file.as_str()]) };
+    let mut c = if t.exec_stdin { stage_child(t, &["execute"]) } else { stage_child(t, &["execute", bc_file.as_str()]) };
     if t.exec_stdin { c.stdin = In::File(bc_file.clone()); }
     c.shim = stage_shim(t, 2, source.len());
     let r = run_child(&dir, &c);
@@ -761,6 +779,7 @@ pub fn minimise(case: &Case, oracle: &str) -> Case {
         };
     }
     try_field!(wrapper);
+    try_field!(wrapper_stages);
     try_field!(exec_stdin);
     try_field!(compile_out);
     try_field!(compile_stdin);
@@ -856,6 +875,10 @@ fn exercise(name: &str, spec: &ProgSpec, rng: &mut Rng, n_tuples: usize, n_hard:
         tuples.push(t);
     }
     for mut t in tuples {
+        if !t.wrapper && !name.starts_with("boundary:") && rng.below(6) == 0 {
+            t.wrapper_stages = true;
+            if t.input_name.contains(' ') { t.input_name = "job.1.fml".into(); } // the script documents that it splits arguments at blanks
+        }
         if source.len() > 50_000 {
             // megabytes of AST delivered one byte per call cost minutes and prove nothing more than 64 bytes per call do
             for p in t.plans.iter_mut() { for k in ["1", "2", "3", "7"] { *p = p.replace(&format!(":l:{};", k), ":l:64;"); if p.ends_with(&format!(":l:{}", k)) { let n = p.len() - k.len(); p.truncate(n); p.push_str("64"); } } }
@@ -879,6 +902,7 @@ fn exercise(name: &str, spec: &ProgSpec, rng: &mut Rng, n_tuples: usize, n_hard:
         if t.compile_stdin { out.counters.push(("compile_from_stdin".into(), 1)); }
         if t.exec_stdin { out.counters.push(("execute_from_stdin".into(), 1)); }
         if t.wrapper { out.counters.push(("wrapper_script_runs".into(), 1)); }
+        if t.wrapper_stages { out.counters.push(("pipelines_with_every_stage_through_the_wrapper_script".into(), 1)); }
         if t.stale { out.counters.push(("pipelines_over_stale_output_files".into(), 1)); }
         out.counters.push((format!("input_name.{}", t.input_name), 1));
         if st.faults_fired > 0 { out.counters.push(("pipelines_with_transient_faults_fired".into(), 1)); }
